@@ -98,6 +98,8 @@ class Prober:
 
     def distinct_words(self, name, which):
         """in-domain words, pairwise distinct (also in their low 32 bits) where the domain allows"""
+        if name not in AUDIT:           # a decoder registered after the audit was frozen: small plain numbers
+            return list(self.w.words(name, which))
         for _ in range(50):
             ws = list(self.w.words(name, which))
             for i in range(4):
@@ -111,7 +113,7 @@ class Prober:
 
     def alt(self, name, which, j, cur):
         """another in-domain value for word j"""
-        d = AUDIT[name]['dom'][j + (4 if which == 'end' else 0)]
+        d = AUDIT[name]['dom'][j + (4 if which == 'end' else 0)] if name in AUDIT else [0, 1, 2, 3, 5, 7]
         for _ in range(50):
             if d is None:
                 v = self.rnd.choice([self.rnd.getrandbits(64), self.rnd.getrandbits(31) + 1000,
